@@ -156,34 +156,36 @@ type Env struct {
 	T    *testing.T
 	Tape *Tape
 
-	mu        sync.Mutex
-	log       []string
-	notes     []string
-	viol      []Violation
-	vmu       sync.Mutex
-	vlog      []string
-	phaseNo   atomic.Int32
-	Faults    map[string]int
-	Probes    map[string]int
-	phase     int
-	start     time.Time
-	nontriv   bool
-	racy      bool
-	scenario  string
-	tearing   bool
-	siteHits  map[string]int
-	parkPlan  map[string]map[int]bool
-	parkAll   map[string]bool
-	parked    []*parkedG
-	gates     map[any]chan struct{}
-	randCtr   uint64
-	randBase  uint64
-	cleanup   []func()
-	Pool      *PoolTracker
-	real      map[string]bool
-	stub      map[string]bool
-	MaxPhases int
-	quietLog  bool
+	mu    sync.Mutex
+	log   []string
+	notes []string
+	viol  []Violation
+	// NoAutoRacy: the scenario guarantees that a replaced reader loop comes back to an empty queue
+	NoAutoRacy bool
+	vmu        sync.Mutex
+	vlog       []string
+	phaseNo    atomic.Int32
+	Faults     map[string]int
+	Probes     map[string]int
+	phase      int
+	start      time.Time
+	nontriv    bool
+	racy       bool
+	scenario   string
+	tearing    bool
+	siteHits   map[string]int
+	parkPlan   map[string]map[int]bool
+	parkAll    map[string]bool
+	parked     []*parkedG
+	gates      map[any]chan struct{}
+	randCtr    uint64
+	randBase   uint64
+	cleanup    []func()
+	Pool       *PoolTracker
+	real       map[string]bool
+	stub       map[string]bool
+	MaxPhases  int
+	quietLog   bool
 	// RulePrefix, when set, makes Violate ignore rules of other properties (monitor runs riding on another property's workload).
 	RulePrefix string
 	// PoolCapacity > 0 makes every endpoint of the run use a message pool of that capacity (C12).
@@ -380,7 +382,9 @@ func (e *Env) yieldHook(site string, key uint64) {
 	// may keep consuming next to the new loop: who processes what, and who draws which outgoing
 	// message ID, is the runtime's choice from then on. Such runs are marked racy (DESIGN 3.4).
 	if site == "reader.replace.beforeLock" && e.siteHits["reader.afterFlagClear"] > e.siteHits["reader.afterHandler"] {
-		e.racy = true
+		if !e.NoAutoRacy {
+			e.racy = true
+		}
 		e.Probes["readerLoop.replacedWhileInHandler"]++
 	}
 	e.mu.Unlock()
